@@ -1,10 +1,5 @@
 // ===== prelude/tako_reactor.rs — environment of tako::internal::server::reactor (trusted; N2, N12, N13) =====
 
-// ---- messages to workers: abstract content of a ComputeTasks message = (task, instance, variant) triples
-pub type CtItem = (TaskId, InstanceId, Option<ResourceVariantId>);
-#[verifier::external_body]
-pub struct ComputeTasksMsg {}
-impl ComputeTasksMsg { pub uninterp spec fn items(&self) -> Seq<CtItem>; }
 #[verifier::external_body]
 pub struct WorkerResourceCounts {}
 //@ extract struct NewWorkerMsg file=crates/tako/src/internal/messages/worker.rs
@@ -14,39 +9,6 @@ pub struct WorkerResourceCounts {}
 //@ extract struct TaskFailInfo file=crates/tako/src/internal/messages/common.rs
 #[verifier::external_body]
 pub struct SerializedTaskContext {}
-
-// ComputeTasksBuilder (server/task.rs): groups tasks into ComputeTasks messages (size-driven fragmentation is
-// abstracted: any split into consecutive messages). ASSUMED contract: nothing is lost, duplicated or reordered, and
-// each item carries the task's *current* instance id and the given variant.
-#[verifier::external_body]
-pub struct ComputeTasksBuilder {}
-//@ extract sig ComputeTasksBuilder::single_task file=crates/tako/src/internal/server/task.rs arity=3
-//@ extract sig ComputeTasksBuilder::add_task file=crates/tako/src/internal/server/task.rs arity=4
-//@ extract sig ComputeTasksBuilder::into_last_message file=crates/tako/src/internal/server/task.rs arity=1
-spec fn ct_item(task: Task, v: Option<ResourceVariantId>) -> CtItem { (task.id, task.instance_id, v) }
-impl ComputeTasksBuilder {
-    pub uninterp spec fn pending(&self) -> Seq<CtItem>;
-    #[verifier::external_body]
-    fn default() -> (r: Self) ensures r.pending() == Seq::<CtItem>::empty() { unimplemented!() }
-    #[verifier::external_body]
-    fn single_task(task: &Task, variant: ResourceVariantId, node_list: Vec<WorkerId>) -> (r: ToWorkerMessage)
-        ensures r is ComputeTasks, r->ComputeTasks_0.items() == seq![ct_item(*task, Some(variant))]
-    { unimplemented!() }
-    #[verifier::external_body]
-    fn add_task(&mut self, task: &Task, variant: Option<ResourceVariantId>, node_list: Vec<WorkerId>) -> (r: Option<ToWorkerMessage>)
-        ensures match r {
-            Some(m) => m is ComputeTasks && m->ComputeTasks_0.items() == old(self).pending().push(ct_item(*task, variant)) && final(self).pending() == Seq::<CtItem>::empty(),
-            None => final(self).pending() == old(self).pending().push(ct_item(*task, variant)),
-        }
-    { unimplemented!() }
-    #[verifier::external_body]
-    fn into_last_message(self) -> (r: Option<ToWorkerMessage>)
-        ensures match r {
-            Some(m) => m is ComputeTasks && m->ComputeTasks_0.items() == self.pending() && self.pending().len() > 0,
-            None => self.pending().len() == 0,
-        }
-    { unimplemented!() }
-}
 
 // ---- Comm / EventProcessor (N13): two ghost logs — messages towards workers (+ scheduling requests) and
 // callbacks towards the client layer (hyperqueue). Each real trait method appends exactly one entry.
